@@ -78,6 +78,8 @@ var vc04Routes = []vc04Route{
 	{28, "PATCH", "/internal/x/:id"},
 	{29, "OPTIONS", "/internal/vdr/v1/did/:did"},
 	{30, "OPTIONS", "/public"},
+	{31, "POST", "/internal/vdr/v1/did"},       // rate-limited by the engine's internal rate limiter (burst 30)
+	{32, "POST", "/internal/vcr/v2/issuer/vc"}, // idem
 }
 
 // request headers that proxies, browsers and frameworks give a meaning to: none of them may influence the guard
@@ -575,6 +577,7 @@ type vc04Op struct {
 	AuthOK map[string]bool `json:"authok,omitempty"`
 	Cred   string          `json:"cred,omitempty"`
 	HX     []string        `json:"hx,omitempty"` // extra request headers
+	Tag    string          `json:"tag,omitempty"`
 	Hdr    string          `json:"hdr,omitempty"`
 	Tok    *vc04Tok        `json:"tok,omitempty"`
 	A      string          `json:"a,omitempty"`
@@ -765,6 +768,28 @@ func TestVerifC04(t *testing.T) {
 	for _, typ := range []string{"", "token_v2", "token", "Token_v2", "TOKEN_V2", "token_v2 ", " token_v2", "token_v1", "tokenv2", "jwt", "none", "bearer", "off", "false", "0"} {
 		for _, kf := range []string{"ok", "missing", "garbage", "empty"} {
 			op := vc04Op{Op: "configure", A: typ, B: kf}
+			emit(op, run(op))
+		}
+	}
+
+	// a burst of UNAUTHENTICATED requests to rate-limited internal routes (more than the limiter's burst of 30), then
+	// authenticated ones: every failure is a 401 and has no effect — in particular it does not use up the limiter's budget
+	for _, en := range []string{"A", "B"} {
+		for i := 0; i < 48; i++ {
+			kind := []string{"none", "garbage", "expired", "attacker-key", "wrong-audience", "basic-scheme"}[i%6]
+			c := credByKind[kind]
+			tk := c.tok
+			path := []string{"/internal/vdr/v1/did", "/internal/vcr/v2/issuer/vc"}[i%2]
+			op := vc04Op{Op: "req", Eng: en, Lis: "int", M: "POST", T: hex.EncodeToString([]byte(path)), Show: strconv.QuoteToASCII(path),
+				AuthOK: map[string]bool{}, Cred: c.kind, Hdr: c.hdr, Tok: &tk, Tag: "burst"}
+			emit(op, run(op))
+		}
+		for i := 0; i < 4; i++ {
+			c := credByKind["valid0"]
+			tk := c.tok
+			path := []string{"/internal/vdr/v1/did", "/internal/vcr/v2/issuer/vc"}[i%2]
+			op := vc04Op{Op: "req", Eng: en, Lis: "int", M: "POST", T: hex.EncodeToString([]byte(path)), Show: strconv.QuoteToASCII(path),
+				AuthOK: map[string]bool{}, Cred: c.kind, Hdr: c.hdr, Tok: &tk, Tag: "burst"}
 			emit(op, run(op))
 		}
 	}
